@@ -688,8 +688,9 @@ class Check(common.Check):
             a, b = io.get(key), mo.get(key)
             if case['k'] in ('sendc', 'sync') and key == 'r':
                 a = ('ok ' + ','.join(str(x) for x in io.get('counts', []))) if a == 'ok' else a
-            if b == 'err NOT-MODELLED' and not io.get('r', '').startswith('ok'):
-                continue        # input outside the modelled domain AND refused by the real encoder
+            if mo.get('r') == 'err NOT-MODELLED' or b == 'err NOT-MODELLED':
+                continue        # a str / bytes / tuple where an element LIST is expected: Python indexes it
+                                # like a list; outside the modelled (and the property's) domain
             if a != b:
                 diff[key] = {'impl': a, 'model': b}
         return diff or None
@@ -837,7 +838,7 @@ class Check(common.Check):
 
 
 Check.THEOREMS = ['Sc3Verif.C06.' + t for t in (
-    'msg_roundtrip', 'nestRun_iff_flat', 'bundle_roundtrip', 'packet_roundtrip', 'nested_msg_blob',
+    'msg_roundtrip', 'nestRun_iff_flat', 'bundle_roundtrip', 'packet_roundtrip', 'packet_order', 'nested_msg_blob',
     'nested_bundle_blob', 'coercions', 'refused_not_altered', 'representable_accepted', 'accepted_parses',
     'aligned4', 'string_blob_layout', 'message_layout', 'big_endian', 'element_size_prefix', 'frame_reads_back',
     'predict_ge_real_msg', 'predict_ge_real_bundle', 'clump_concat', 'clump_within_limit',
